@@ -47,6 +47,10 @@ def check(prog, rep):
     rule_fullmatch(prog, rep)
     rule_state_names(prog, rep, t, model)
     rule_coverage(prog, rep, t, model)
+    # with --ligand: only atoms that got parameters (from the force field or the MOL2 file) are printed; the bundled tables are the package's
+    from .shared import rule_bundled_tables_from_package, rule_ligand_block_model
+    rep.guarded(rule_ligand_block_model, prog, rep, "R7")
+    rep.guarded(rule_bundled_tables_from_package, prog, rep, "R8")
 
 
 # ---------------------------------------------------------------------------------- R1
